@@ -79,6 +79,15 @@ func NewMapRefSelfSource[T any, U any](m map[string]U, fn func(U, Sourcer[T]) (r
 			out.List[i].V = v
 		}
 	}
+	for _, o := range out.List {
+		cur := o
+		for steps := 0; cur != nil && cur.V != nil && cur.V.Ref() != nil; steps++ {
+			if steps > len(out.List) {
+				return zero, fmt.Errorf("map key %q: reference cycle", o.Name)
+			}
+			cur = cur.V.Ref()
+		}
+	}
 	return out, nil
 }
 
